@@ -78,3 +78,58 @@ theorem romBytes_eq (code n : Nat) (h : romBytes? code = some n) : n = romBanks 
     all_goals first | omega | cases h
 
 end GbVerif.HeaderProofs
+
+/-! ### the title text (`Header::get_title`) -/
+namespace GbVerif.Header
+
+theorem lossyAux_ascii : ∀ (fuel : Nat) (l : List Nat), l.length ≤ fuel → (∀ b ∈ l, b < 0x80) → lossyAux fuel l = l
+  | 0, l, hl, _ => by
+    have : l = [] := List.eq_nil_of_length_eq_zero (by omega)
+    subst this; rfl
+  | fuel+1, [], _, _ => rfl
+  | fuel+1, b :: bs, hl, h => by
+    have hb := h b List.mem_cons_self
+    have e : decodeOne b bs = ([b], 1) := by unfold decodeOne; rw [if_pos hb]
+    show (decodeOne b bs).1 ++ lossyAux fuel (bs.drop ((decodeOne b bs).2 - 1)) = b :: bs
+    rw [e]
+    show [b] ++ lossyAux fuel (bs.drop 0) = b :: bs
+    rw [List.drop_zero, lossyAux_ascii fuel bs (by simp only [List.length_cons] at hl; omega) (fun x hx => h x (List.mem_cons_of_mem _ hx))]
+    rfl
+
+/-- the Loading line shows an ASCII title as it is in the file -/
+theorem utf8Lossy_ascii (l : List Nat) (h : ∀ b ∈ l, b < 0x80) : utf8Lossy l = l :=
+  lossyAux_ascii l.length l (Nat.le_refl _) h
+
+theorem decodeOne_bytes (b0 : Nat) (rest : List Nat) : ∀ x ∈ (decodeOne b0 rest).1, x ∈ b0 :: rest ∨ x ∈ replacement := by
+  intro x hx
+  unfold decodeOne at hx
+  repeat' split at hx
+  all_goals first
+    | exact Or.inr hx
+    | (simp only [List.mem_cons, List.not_mem_nil, or_false] at hx; left; simp only [List.mem_cons]; omega)
+    | (simp only [List.mem_cons, List.not_mem_nil, or_false] at hx; left; simp only [List.mem_cons]
+       rcases hx with h | h | h | h <;> simp [h])
+
+/-- whatever the title bytes are, every byte `get_title` yields is a byte of the title or of U+FFFD (nothing else of
+the header or of memory gets into the Loading line) -/
+theorem lossyAux_bytes : ∀ (fuel : Nat) (l : List Nat), ∀ x ∈ lossyAux fuel l, x ∈ l ∨ x ∈ replacement := by
+  intro fuel
+  induction fuel with
+  | zero => intro l x hx; cases hx
+  | succ n ih =>
+    intro l x hx
+    cases l with
+    | nil => cases hx
+    | cons b0 rest =>
+      have hx' : x ∈ (decodeOne b0 rest).1 ++ lossyAux n (rest.drop ((decodeOne b0 rest).2 - 1)) := hx
+      rcases List.mem_append.mp hx' with h | h
+      · exact decodeOne_bytes b0 rest x h
+      · rcases ih _ x h with h | h
+        · exact Or.inl (List.mem_cons_of_mem _ (List.mem_of_mem_drop h))
+        · exact Or.inr h
+
+theorem mem_trimNul {x : Nat} {l : List Nat} (h : x ∈ trimNul l) : x ∈ l := by
+  unfold trimNul at h
+  exact List.mem_reverse.mp ((List.dropWhile_sublist _).subset (List.mem_reverse.mp h))
+
+end GbVerif.Header
